@@ -5,8 +5,13 @@ import Amshan.Lemmas.P1ParseRT
 namespace Amshan.C11
 open Amshan.Gen Amshan.Cosem Amshan.P1Parse Amshan.P1BlockSpec
 
-theorem literal_pins : p1DecodeStrings = ["v", "a", "var", "varh", "kw", "kwh", "kvar", "kvarh", "1.0.0"] ∧
-    p1DecodeLiterals = [1, 0, 0, 0, 0, 1000, 0, 0] ∧ p1DatetimeLiterals = [2000, 0, 2, 2, 4, 4, 6, 6, 8, 8, 10, 10, 12] := by
+/-- pin: the strings `_decode_parsed` compares units and the clock code with, as the model reads them
+    (`unitsPlain` = the first four, `unitsKilo` = the next four, `clockCde` = the ninth); the order inside a group
+    does not matter (the source may keep a group in a set).  The integer literals of `_decode_parsed` and
+    `_parse_p1_datetime` are not pinned as theorems: they are change detectors of the harness
+    (harness/fingerprints.json), a change widens the correspondence search. -/
+theorem literal_pins : (p1DecodeStrings.take 4).Perm ["v", "a", "var", "varh"] ∧
+    ((p1DecodeStrings.drop 4).take 4).Perm ["kw", "kwh", "kvar", "kvarh"] ∧ p1DecodeStrings.drop 8 = ["1.0.0"] := by
   decide
 
 def expectedSets (b : List LineDesc) : List DataSet :=
